@@ -201,7 +201,11 @@ func runHistory(t *testing.T, r *ev.Run, seed int64, p Params) (failed bool) {
 		if rng.Intn(2) == 0 {
 			impl = "protectedmemory"
 		}
-		h.w = world.New(impl)
+		// two histories in five run over a real DynamoDB metastore plug-in (v1 / v2 client) on the semantic fake; the
+		// choice comes from a generator of its own so that it does not shift the history drawn from rng
+		backend := []string{"memory", "memory", "memory", "dynamodb-v1", "dynamodb-v2"}[rand.New(rand.NewSource(seed^0xbac)).Intn(5)]
+		h.w = world.NewOn(impl, backend)
+		h.r.Count("histories_on_"+backend, 1)
 		h.w.MS.WhoFn = func() string { return h.scope }
 		if rng.Intn(5) == 0 {
 			h.w.Suffix = "us-west-2"
@@ -246,7 +250,7 @@ func runHistory(t *testing.T, r *ev.Run, seed int64, p Params) (failed bool) {
 			h.w.MS.Latency, h.w.KMS.Latency, h.w.AEAD.Latency = lat, lat, lat
 			h.slack = 50 * time.Microsecond
 		}
-		h.logf("world secret=%s suffix=%q E=%s R=%s P=%s", impl, h.w.Suffix, h.expire, h.revoke, h.precision)
+		h.logf("world secret=%s backend=%s suffix=%q E=%s R=%s P=%s", impl, backend, h.w.Suffix, h.expire, h.revoke, h.precision)
 		h.facts = append(h.facts, h.newFact())
 		defer func() {
 			if pv := recover(); pv != nil {
